@@ -137,6 +137,148 @@ example : WellFormed ⟨10, [⟨.method, .method .Isomap⟩, ⟨.num_neighbors, 
   ⟨by decide, by decide, by intro p hp; simp at hp; rcases hp with rfl | rfl <;> rfl, by decide,
    by intro p hp; simp at hp; rcases hp with rfl | rfl <;> simp, by simp [DeclaredSupplied, Meth.traits]⟩
 
+/-! ## nothing is evaluated before an error -/
+
+/-- the full statement of the property text: *whatever* is wrong with a request, the exception comes before any kernel
+    or distance evaluation -/
+def NoCallbackBeforeError : Prop :=
+  ∀ r : Request, ∀ e, (frontEnd r).outcome = .threw e → (frontEnd r).counts.kernel = 0 ∧ (frontEnd r).counts.distance = 0
+
+/-- the witness of finding F-TYPE-LATE: Isomap on 10 samples with `eigen_method` holding an `int` -/
+def lateTypeErrorWitness : Request :=
+  ⟨10, [⟨.method, .method .Isomap⟩, ⟨.eigen_method, .int 3⟩], false, true, false, false⟩
+
+/-- **Finding F-TYPE-LATE.**  The full statement is false of the code as it stands: a wrong-typed value of a keyword that
+    `embed()` only reads after its first distance computations (here `eigen_method`, read inside
+    `eigendecomposition_via`) is reported by `wrong_parameter_type_error` *after* distance evaluations. -/
+theorem no_callback_before_error_refuted : ¬ NoCallbackBeforeError := by
+  intro h
+  have hw : frontEnd lateTypeErrorWitness = ⟨.threw (errT .wrong_parameter_type_error), ⟨0, 2, 0⟩⟩ := by decide +kernel
+  have := h lateTypeErrorWitness _ (by rw [hw])
+  rw [hw] at this
+  exact absurd this.2 (by decide)
+
+/-- What does hold: if every value has the type of its keyword, then whatever else is wrong with the request
+    (duplicates in any order, no method, no data, values outside their ranges, cancel, any subset of callbacks missing,
+    either harness mode) an exception comes before any kernel or distance evaluation.  This covers the
+    `num_neighbors` check, which sits inside `embed()`: the generated `Gen.embedBody` shows it in front of every
+    kernel / distance use of every method. -/
+theorem no_callback_before_error_partial (r : Request) (ht : WellTyped r) (e : Err)
+    (h : (frontEnd r).outcome = .threw e) :
+    (frontEnd r).counts.kernel = 0 ∧ (frontEnd r).counts.distance = 0 := by
+  by_cases hn : (r.kws.map Param.kw).Nodup
+  · rw [frontEnd_eq r hn] at h ⊢
+    by_cases hm : ∃ p ∈ r.kws, p.kw = Kw.method
+    · have htyped := merged_typed r ht hm
+      have hv := verdict _ r (typedOf (merged r).pmap) (merged r) (typedOf_get (merged r) htyped) rfl
+      obtain ⟨-, h2, -, -⟩ := hv
+      generalize afterMerge r (merged r) = x at h h2 ⊢
+      obtain ⟨a, c⟩ := x
+      cases a with
+      | ok s => simp [finish] at h
+      | error s =>
+        cases s with
+        | reached cb => simp [finish] at h
+        | threw e' => exact h2 e' rfl
+    · have hl : lookup .method (merged r).pmap = none := by
+        rw [lookup_merged, (lastVal_none_iff _ _).mpr (fun p hp hk => hm ⟨p, hp, hk⟩)]
+        decide
+      rw [afterMerge_no_method r _ hl]
+      simp [finish, Counts.zero]
+  · rw [duplicates_always_rejected r hn]
+    simp [Counts.zero]
+
+/-- non-vacuity of `no_callback_before_error_partial`: a well-typed request that ends in an error -/
+example : WellTyped ⟨5, [⟨.method, .method .Isomap⟩, ⟨.num_neighbors, .int 7⟩], false, true, false, false⟩ ∧
+    (frontEnd ⟨5, [⟨.method, .method .Isomap⟩, ⟨.num_neighbors, .int 7⟩], false, true, false, false⟩).outcome =
+      .threw (errT .wrong_parameter_error) := by
+  constructor
+  · intro p hp; simp at hp; rcases hp with rfl | rfl <;> rfl
+  · decide +kernel
+
+/-! ## which exception, in the order the code checks (the names state the precedence) -/
+
+/-- a request whose keyword list is free of duplicates, names a method and is well typed -/
+structure Typed (r : Request) : Prop where
+  nodup : (r.kws.map Param.kw).Nodup
+  method : ∃ p ∈ r.kws, p.kw = Kw.method
+  typed : WellTyped r
+
+/-- duplicates come first: see `duplicates_always_rejected` (no hypothesis besides the repeated keyword). -/
+theorem dups_before_everything (r : Request) (h : ¬ (r.kws.map Param.kw).Nodup) :
+    (frontEnd r).outcome = .threw (errT .multiple_parameter_error) := by
+  rw [duplicates_always_rejected r h]
+
+/-- a missing method is reported (`missed_parameter_error`) before the empty range, wrong values, cancel, callbacks -/
+theorem missing_method_before_no_data (r : Request) (hn : (r.kws.map Param.kw).Nodup)
+    (hm : ∀ p ∈ r.kws, p.kw ≠ Kw.method) :
+    frontEnd r = ⟨.threw (errT .missed_parameter_error), Counts.zero⟩ := by
+  have hl : lookup .method (merged r).pmap = none := by
+    rw [lookup_merged, (lastVal_none_iff _ _).mpr hm]; decide
+  rw [frontEnd_eq r hn, afterMerge_no_method r _ hl]; decide
+
+/-- a `method` value of the wrong type is reported (`wrong_parameter_type_error`) before everything but duplicates -/
+theorem method_type_before_no_data (r : Request) (hn : (r.kws.map Param.kw).Nodup) (p : Param) (hp : p ∈ r.kws)
+    (hk : p.kw = Kw.method) (hty : p.val.ty ≠ .method) :
+    frontEnd r = ⟨.threw (errT .wrong_parameter_type_error), Counts.zero⟩ := by
+  have hl : lookup .method (merged r).pmap = some p.val := by
+    have := explicit_values_kept r hn p hp
+    rw [hk] at this
+    simp only [PSet.get] at this
+    cases h : lookup Kw.method (merged r).pmap with
+    | none => simp [h] at this
+    | some v => simp [h] at this; rw [this]
+  rw [frontEnd_eq r hn, afterMerge_method_wrong_type r _ _ hl hty]; decide
+
+/-- an empty range is reported (`no_data_error`) before any value is looked at -/
+theorem no_data_before_ranges (r : Request) (h : Typed r) (hn : r.n = 0) :
+    frontEnd r = ⟨.threw (errT .no_data_error), Counts.zero⟩ := by
+  have htyped := merged_typed r h.typed h.method
+  rw [frontEnd_eq r h.nodup, prefix_no_data r _ _ (typedOf_get (merged r) htyped) hn]; decide
+
+/-- `target_dimension` outside `[1, N)` is reported (`wrong_parameter_error`) before cancel and the callback checks -/
+theorem dimension_before_cancel (r : Request) (h : Typed r) (hn : r.n ≠ 0)
+    (hd : ¬ (1 ≤ numOf (merged r) .target_dimension ∧ numOf (merged r) .target_dimension < r.n)) :
+    frontEnd r = ⟨.threw (errT .wrong_parameter_error), Counts.zero⟩ := by
+  have htyped := merged_typed r h.typed h.method
+  have hnum := typedOf_num (merged r) htyped .target_dimension
+  simp only [TypedVals.num, Kw.ty] at hnum
+  rw [← hnum] at hd
+  rw [frontEnd_eq r h.nodup, prefix_dimension r _ _ (typedOf_get (merged r) htyped) hn hd]; decide
+
+/-- a cancel function returning true is honoured (`cancelled_exception`) before the callback checks and `validate()` -/
+theorem cancel_before_callbacks (r : Request) (h : Typed r) (hn : r.n ≠ 0)
+    (hd : 1 ≤ numOf (merged r) .target_dimension ∧ numOf (merged r) .target_dimension < r.n)
+    (hc : lookup .cancel_function (merged r).pmap = some (.cancelFn (some true))) :
+    frontEnd r = ⟨.threw (errT .cancelled_exception), Counts.zero⟩ := by
+  have htyped := merged_typed r h.typed h.method
+  have hnum := typedOf_num (merged r) htyped .target_dimension
+  simp only [TypedVals.num, Kw.ty] at hnum
+  rw [← hnum] at hd
+  have hc' : (typedOf (merged r).pmap).cancel .cancel_function = some true := by simp [typedOf, hc]
+  rw [frontEnd_eq r h.nodup, prefix_cancel r _ _ (typedOf_get (merged r) htyped) hn hd hc']; decide
+
+/-- a missing declared callback is reported (`unsupported_method_error`) before `validate()` -/
+theorem callbacks_before_validate (r : Request) (m : Meth) (h : Typed r) (hn : r.n ≠ 0)
+    (hm : lookup .method (merged r).pmap = some (.method m))
+    (hd : 1 ≤ numOf (merged r) .target_dimension ∧ numOf (merged r) .target_dimension < r.n)
+    (hc : lookup .cancel_function (merged r).pmap ≠ some (.cancelFn (some true)))
+    (hs : ¬ DeclaredSupplied m r) :
+    frontEnd r = ⟨.threw (errT .unsupported_method_error), Counts.zero⟩ := by
+  have htyped := merged_typed r h.typed h.method
+  have hnum := typedOf_num (merged r) htyped .target_dimension
+  simp only [TypedVals.num, Kw.ty] at hnum
+  rw [← hnum] at hd
+  have hm' : (typedOf (merged r).pmap).meth .method = m := by simp [typedOf, hm]
+  have hc' : (typedOf (merged r).pmap).cancel .cancel_function ≠ some true := by
+    obtain ⟨v, hv, hty⟩ := htyped .cancel_function
+    cases v <;> simp [Val.ty, Kw.ty] at hty
+    rename_i c
+    simp only [typedOf, hv]
+    intro hcc; subst hcc; exact hc hv
+  rw [← hm'] at hs
+  rw [frontEnd_eq r h.nodup, prefix_callbacks r _ _ (typedOf_get (merged r) htyped) hn hd hc' hs]; decide
+
 /-- every exception class stichwort defines is caught by `tapkee::embed` and rethrown as its tapkee twin -/
 theorem rethrow_map_total :
     ∀ c ∈ stichwortClasses, mapErr ⟨.stichwort, c⟩ rethrow = ⟨.tapkee, c⟩ := by decide
